@@ -151,7 +151,8 @@ def run(R):
             pub = cl.ed25519_public.encode()
             sk64 = seed + pub                   # libsodium secret-key layout
             other = Client(rng.randbytes(32)).ed25519_public.encode()
-            for n in [0, 1, 32, 33, 64, 100, rng.randrange(0, 2000)]:
+            # message lengths: the small ones, one random one, and (first two keys) lengths around the sizes at which an implementation might chunk or cut
+            for n in [0, 1, 32, 33, 64, 100, rng.randrange(0, 2000)] + ([255, 256, 1023, 1024, 1025, 2049, 4097, 65537] if i < 2 else []):
                 msg = rng.randbytes(n)
                 W = {'seed': seed, 'msg': msg[:64], 'n': n}
                 sigs = {}
